@@ -170,3 +170,202 @@ def compiled_case(seed, nsteps=9, modes=("MCS", "GENERATIONAL", "TOPOLOGICAL"), 
     if export:
         out["graphs_raw"] = rt.graph_to_dict(graphs_raw)
     return out
+
+
+def _calls_snapshot():
+    import jax
+
+    jax.effects_barrier()
+    with rt.CALL_LOCK:
+        snap = {k: list(v) for k, v in rt.CALLS.items()}
+        rt.CALLS.clear()
+    return snap
+
+
+def calls_case(seed, nsteps=8):
+    """C06: host-side call counters of the probe nodes in both runtimes."""
+    import jax
+    import numpy as onp
+    from rex import base
+
+    rng = random.Random(seed)
+    spec = rt.rand_spec(rng)
+    jit_step = rng.random() < 0.6
+    out = dict(spec=spec, feats=sorted(rt.spec_features(spec)), jit_step=jit_step, async_eps=[], compiled=[])
+    run = rt.AsyncRun(spec, count_calls=True, jit_step=jit_step)
+    _calls_snapshot()
+    Probe, PParams, PState, POut = None, None, None, None
+    recs = []
+    for e, api in enumerate(["run", "step_override"]):
+        overridden = []
+        if api == "run":
+            rec, obs, gs = run.episode(nsteps, eps=e, api="run")
+        else:
+            def ov(k, ss):
+                if k % 2 == 1:
+                    overridden.append(int(ss.seq))
+                    out_cls = type(run.sup.init_output())
+                    return ss, out_cls(y=jax.numpy.array(7 + k, dtype=jax.numpy.int32))
+                return None
+
+            # reset/step with every second supervisor step overridden by the user
+            gs0 = run.gs0.replace(eps=onp.int32(e))
+            gsx, ss = run.graph.reset(gs0)
+            for k in range(nsteps):
+                o = ov(k, ss)
+                if o is None:
+                    gsx, ss = run.graph.step(gsx)
+                else:
+                    gsx, ss = run.graph.step(gsx, o[0], o[1])
+            run.graph.stop()
+            rec = rt.safe_get_record(run.graph)
+        calls = _calls_snapshot()
+        d = rt.episode_record_to_dict(rec)
+        out["async_eps"].append(dict(api=api, calls=calls, seqs={n: d[n]["seq"] for n in d}, outputs_len={n: len(d[n].get("output", [])) for n in d}, overridden=overridden, nsteps=nsteps))
+        if api == "run":
+            try:
+                recs.append(run.graph.get_record())
+            except TypeError:
+                pass
+    if not recs:
+        return out
+    graphs_raw = base.ExperimentRecord(episodes=recs).to_graph()
+    for mode in ("MCS", "GENERATIONAL"):
+        g = rt.compile_graph(run.nodes, run.sup, graphs_raw, mode=mode, prune=True)
+        tim = rt.timings_to_dict(g.timings)
+        gs = g.init(rng=jax.random.PRNGKey(spec["seed"]), starting_eps=0)
+        nrun = min(g.max_steps, 5)
+        _calls_snapshot()
+        # (a) run() x nrun, un-jitted driver (the partition itself is traced by lax.cond / scan)
+        s = gs
+        for _ in range(nrun):
+            s = g.run(s)
+        calls_run = _calls_snapshot()
+        # (b) jitted rollout
+        s2 = jax.jit(lambda x: g.rollout(x, max_steps=nrun, carry_only=True))(gs)
+        jax.block_until_ready(s2.seq)
+        calls_roll = _calls_snapshot()
+        # (c) reset + step with overrides on odd steps
+        s3, ss = g.reset(gs)
+        ov = []
+        for k in range(nrun):
+            if k % 2 == 1:
+                ov.append(int(ss.seq))
+                s3, ss = g.step(s3, ss, type(run.sup.init_output())(y=jax.numpy.array(5 + k, dtype=jax.numpy.int32)))
+            else:
+                s3, ss = g.step(s3)
+        calls_step = _calls_snapshot()
+        # (d) step() straight after init (step == 0): the supervisor must not run
+        s4, _ = g.step(gs)
+        calls_first = _calls_snapshot()
+        out["compiled"].append(dict(mode=mode, timings=tim, nrun=nrun, calls_run=calls_run, calls_rollout=calls_roll, calls_step=calls_step, overridden=ov, calls_first=calls_first, sup=spec["supervisor"]))
+    return out
+
+
+def _gs_fingerprint(gs, names):
+    """execution-relevant content of a GraphState (no aux/record): per node seq, ts, rng, state + input windows"""
+    import numpy as onp
+
+    out = {}
+    for n in names:
+        ss = gs.step_state[n]
+        out[n] = dict(seq=int(ss.seq), ts=float(ss.ts), rng=[int(x) for x in onp.asarray(ss.rng).reshape(-1)], state=int(ss.state.s),
+                      inputs={k: dict(seq=onp.asarray(v.seq).astype(int).tolist(), data=onp.asarray(v.data.y).astype(int).tolist()) for k, v in ss.inputs.items()})
+    return out
+
+
+def record_case(seed, nsteps=8):
+    """C13: the same episode under different record settings, both runtimes."""
+    import itertools
+
+    import jax
+    import numpy as onp
+    from rex import base
+
+    rng = random.Random(seed)
+    spec = rt.rand_spec(rng)
+    names = [n["name"] for n in spec["nodes"]]
+    run = rt.AsyncRun(spec)
+    ws = {n: int(run.gs0.params[n].w) for n in names}
+    out = dict(spec=spec, feats=sorted(rt.spec_features(spec)), w=ws, async_runs=[], compiled=[])
+    fields = ["params", "rng", "inputs", "state", "output"]
+    combos = [dict(zip(fields, [True] * 5))]
+    for _ in range(3):
+        combos.append({f: rng.random() < 0.5 for f in fields})
+    combos.append({f: False for f in fields})
+    full_rec = None
+    for ci, combo in enumerate(combos):
+        mr = None if ci == 0 else rng.choice([None, 3, 0])
+        run.graph.set_record_settings(**combo, max_records=mr if mr is not None else 20000)
+        rec, obs, gs = run.episode(nsteps, eps=0, api="step")
+        d = rt.episode_record_to_dict(rec)
+        out["async_runs"].append(dict(settings=combo, max_records=mr, record=d, obs=obs))
+        if ci == 0:
+            try:
+                full_rec = run.graph.get_record()
+            except TypeError:
+                full_rec = None
+    run.graph.set_record_settings(**combos[0], max_records=20000)
+    if full_rec is None:
+        return out
+    graphs_raw = base.ExperimentRecord(episodes=[full_rec]).to_graph()
+    mode = rng.choice(["MCS", "GENERATIONAL", "TOPOLOGICAL"])
+    g = rt.compile_graph(run.nodes, run.sup, graphs_raw, mode=mode, prune=rng.random() < 0.7)
+    tim = rt.timings_to_dict(g.timings)
+    gs0 = g.init(rng=jax.random.PRNGKey(spec["seed"]), starting_eps=0)
+    gs0 = gs0.replace(rng=run.gs0.rng, state=run.gs0.state, params=run.gs0.params)
+    nfull = g.max_steps
+    variants = [("none", None, nfull, "step")] + [("rec", combos[0], nfull, "step"), ("rec", combos[0], nfull, "rollout"), ("rec", combos[0], max(1, nfull // 2), "run")] + \
+               [("rec", c, nfull, "step") for c in combos[1:3]]
+    for kind, combo, nrun, api in variants:
+        gs = gs0 if kind == "none" else g.init_record(gs0, **combo)
+        if api == "run":
+            for _ in range(nrun):
+                gs = g.run(gs)
+        elif api == "rollout":
+            gs = g.rollout(gs, max_steps=nrun, carry_only=True)
+        else:  # gym style: reset + max_steps x step -> executes the last partition too
+            gs, ss = g.reset(gs)
+            for _ in range(nrun):
+                gs, ss = g.step(gs)
+        entry = dict(settings=combo, nrun=nrun, api=api, final=_gs_fingerprint(gs, names), step=int(gs.step))
+        if kind != "none":
+            recd = {}
+            for n, r in gs.aux["record"].nodes.items():
+                recd[n] = rt.node_record_to_dict(r)
+            entry["record"] = recd
+        out["compiled"].append(entry)
+    out["timings"] = tim
+    out["mode"] = mode
+    out["sup"] = spec["supervisor"]
+    return out
+
+
+def wallclock_ts_case(seed):
+    """C13 (wall clock): a node that moves its own step_state.ts forward; the recorded delay must be ts_end - ts_start."""
+    import jax.numpy as jnp
+    import numpy as onp
+    import rex.constants as const
+    from rex.asynchronous import AsyncGraph
+
+    Probe = rt.make_probe_class()[0]
+
+    class Shifter(Probe):
+        def step(self, step_state):
+            ss, out = super().step(step_state)
+            return ss.replace(ts=step_state.ts + jnp.float32(0.004)), out
+
+    a = Shifter(name="a", rate=40, delay_dist=rt.make_dist(dict(kind="det", loc=0.002, scale=0)))
+    b = Probe(name="b", rate=20, delay_dist=rt.make_dist(dict(kind="det", loc=0.002, scale=0)))
+    b.connect(a, window=2, blocking=False, delay_dist=rt.make_dist(dict(kind="det", loc=0.001, scale=0)))
+    a.connect(b, window=1, blocking=False, skip=True, delay_dist=rt.make_dist(dict(kind="det", loc=0.001, scale=0)))
+    g = AsyncGraph(nodes={"a": a, "b": b}, supervisor=b, clock=const.Clock.WALL_CLOCK, real_time_factor=const.RealTimeFactor.REAL_TIME)
+    g.set_record_settings(params=True, rng=True, inputs=True, state=True, output=True)
+    gs = g.init()
+    g.warmup(gs, jit_step=False)
+    for _ in range(8):
+        gs = g.run(gs)
+    g.stop()
+    rec = rt.safe_get_record(g)
+    d = rt.episode_record_to_dict(rec)
+    return dict(record={k: {f: v[f] for f in ("seq", "ts_start", "ts_end", "delay")} for k, v in d.items()})
